@@ -799,6 +799,14 @@ class WorkflowDatabaseManager:
         """Recover public database from private database."""
         if self.pub_dao.n_tries >= self.pub_dao.MAX_TRIES:
             self.copy_pri_to_pub()
+            # The private DB already holds the effect of everything that is
+            # still queued for the public DB (both queues are filled together
+            # and the private write comes first), so drop the stale queue
+            # rather than replaying it on top of the fresh copy.
+            for table in self.pub_dao.tables.values():
+                table.delete_queues.clear()
+                table.insert_queue.clear()
+                table.update_queues.clear()
             LOG.warning(
                 f"{self.pub_dao.db_file_name}: recovered from "
                 f"{self.pri_dao.db_file_name}")
